@@ -393,7 +393,8 @@ class _Walk:
         self.n += 1
         self.judge_state(t, {}, [], None)
 
-    def dfs(self, t, depth, level, former, path):
+    def dfs(self, t, depth, level, former, path, part=None):
+        """part = (k, m): at this level only the operations with index % m == k (splits one start state into m cases)"""
         if depth == 0 or t is None:
             return
         v = rt.view(t)
@@ -403,7 +404,9 @@ class _Walk:
         if key in self.done:
             return                       # same raw state with the same remaining depth: same subtree
         self.done.add(key)
-        for a in ou.alphabet(v, level):
+        for j, a in enumerate(ou.alphabet(v, level)):
+            if part is not None and j % part[1] != part[0]:
+                continue
             r, f2 = self.step(t, a, former, path, v)
             if r is not None and depth > 1:
                 self.dfs(r, depth - 1, level, f2, path + [a])
@@ -433,7 +436,7 @@ def run_history_case(case):
     raw state, and the operations are deterministic)"""
     w = _Walk(case)
     t = rt.table_from_case(case)
-    w.dfs(t, case['depth'], case['level'], {}, [])
+    w.dfs(t, case['depth'], case['level'], {}, [], part=case.get('part'))
     return w.result()
 
 
@@ -477,6 +480,17 @@ def _layout_zero_variants(dm, layouts=rt.LAYOUTS, zeros=rt.ZEROS):
 
 
 def small_states(tier):
+    """_all_small_states without descriptors that build the same raw state (e.g. 'csr-unsorted' of a matrix whose
+    rows hold at most one entry is the csr state)"""
+    seen = set()
+    for st in _all_small_states(tier):
+        k = raw_key(rt.table_from_case(st))
+        if k not in seen:
+            seen.add(k)
+            yield st
+
+
+def _all_small_states(tier):
     """every matrix over {0,1,2} up to 2x2 in every layout x stored-zero mode (no metadata, plain IDs);
     plus 2x3 / 3x2 / 3x3 / stress matrices with metadata kinds and ID alphabets"""
     for dm in rt.matrices(0, 0, shapes=[(1, 1), (1, 2), (2, 1), (2, 2)]):
@@ -524,8 +538,10 @@ def history_states(tier, depth):
 
 
 def history_cases(tier, depth, level):
+    m = 4 if depth == 2 else 16
     for st in history_states(tier, depth):
-        yield dict(st, depth=depth, level=level)
+        for k in range(m):
+            yield dict(st, depth=depth, level=level, part=[k, m])
 
 
 def random_cases(tier, seed):
